@@ -34,15 +34,19 @@ def _neutral_doc(prop_name: str = "neutral_name", param_name: str = "neutral_par
             "Leaf": obj({"leaf-id": INT}),
         },
         {
-            "/cap/{id}": {
+            # the candidate in one location at a time, ordinary names in the others (code of the other locations runs
+            # before and after the candidate's own block)
+            "/cq/{id}": {
                 "post": {
-                    "operationId": "captureOp",
-                    "parameters": [param("id", "path", STR), param(param_name, "query", STR), param("X-" + param_name, "header", STR), param("c-" + param_name, "cookie", STR)],
+                    "operationId": "captureQuery",
+                    "parameters": [param("id", "path", STR), param(param_name, "query", STR), param("X-Plain", "header", STR), param("c-plain", "cookie", STR)],
                     "requestBody": {"content": {"application/json": {"schema": ref("Leaf")}}},
                     "responses": {"200": jresp(ref("CaptureModel"))},
                 },
                 "get": {"operationId": "captureGet", "parameters": [param("id", "path", STR), param(param_name, "query", INT, True)], "responses": {"204": {"description": "n"}}},
             },
+            "/ch/{id}": {"post": {"operationId": "captureHeader", "parameters": [param("id", "path", STR), param("plain-q", "query", STR), param(param_name, "header", STR), param("c-plain", "cookie", STR)], "responses": {"204": {"description": "n"}}}},
+            "/cc/{id}": {"get": {"operationId": "captureCookie", "parameters": [param("id", "path", STR), param("plain-q", "query", STR), param("X-Plain", "header", STR), param(param_name, "cookie", STR)], "responses": {"204": {"description": "n"}}}},
             # the candidate as a *path* parameter next to ordinary query/header parameters (other code runs in between)
             "/capp/{" + param_name + "}/x": {
                 "put": {"operationId": "capturePath", "parameters": [param(param_name, "path", STR), param("limit", "query", INT), param("cursor", "query", STR), param("X-Plain", "header", STR)], "responses": {"204": {"description": "n"}}},
@@ -61,7 +65,8 @@ def candidates() -> dict[str, list[str]]:
     try:
         errs, pdir = gen.generate(_neutral_doc(), root, "sk_neutral")
         out: dict[str, set] = {"model": set(), "endpoint": set()}
-        for scope, path in (("model", pdir / "models" / "capture_model.py"), ("endpoint", pdir / "api" / "default" / "capture_op.py")):
+        files = [("model", pdir / "models" / "capture_model.py")] + [("endpoint", f) for f in sorted((pdir / "api" / "default").glob("capture_*.py"))]
+        for scope, path in files:
             tree = ast.parse(path.read_text())
             for node in ast.walk(tree):
                 if isinstance(node, ast.Name):
@@ -77,12 +82,15 @@ def candidates() -> dict[str, list[str]]:
         for scope in out:
             out[scope] |= set(keyword.kwlist) | {"self", "cls", "client", "url"}
             # names that are simply the Python names of the document's *other* properties/parameters are C09's subject
-            own = {"other_prop", "a_list", "leaf_id", "id", "x_neutral_param", "c_neutral_param", "neutral_param", "neutral_name", "u_first", "after_date", "opt_null", "nested_m", "an_enum"}
+            own = {"other_prop", "a_list", "leaf_id", "id", "x_plain", "c_plain", "plain_q", "neutral_param", "neutral_name", "u_first", "after_date", "opt_null", "nested_m", "an_enum"}
             out[scope] = {n for n in out[scope] if n.isidentifier() and not n.startswith("neutral") and n not in own}
         del builtins
         return {k: sorted(v) for k, v in out.items()}
     finally:
         gen.cleanup(root)
+
+
+DUMP: dict = {}  # scope -> name -> failing conditions of the last sweep in this process (tools/c18_baseline.py)
 
 
 def capture_sweep(scope: str, part: int = 0, parts: int = 1, tier: str = "quick", known: list | None = None, timeout: int = 60, par: int = 1, **_: object) -> dict:
@@ -127,16 +135,32 @@ def capture_sweep(scope: str, part: int = 0, parts: int = 1, tier: str = "quick"
                 except Exception as e:
                     problem = f"harness could not be built: {type(e).__name__}: {e}"
             n += 1
-            bad = problem or next((f"{r.get('call') or r['func']}: {str(r.get('replay', {}).get('observed'))[:200]} (CrossHair: {r['message'][:100]})" for r in recs if r["verdict"] == "counterexample" and r.get("replay", {}).get("reproduced")), None)
+            # which conditions fail for this name ("*" = the package / harness as a whole is broken)
+            failing: dict[str, str] = {}
+            if problem:
+                failing["*"] = problem
+            for r in recs:
+                if r["verdict"] == "counterexample" and r.get("replay", {}).get("reproduced"):
+                    failing[r["func"]] = f"{r.get('call') or r['func']}: {str(r.get('replay', {}).get('observed'))[:200]} (CrossHair: {r['message'][:100]})"
+                elif r["verdict"] == "error":
+                    failing["*"] = f"{r['func']}: harness cannot even be loaded: {r['message'][-200:]}"
             nonrep = [r for r in recs if r["verdict"] == "counterexample" and not r.get("replay", {}).get("reproduced")]
-            errs_h = [r for r in recs if r["verdict"] == "error"]
-            if errs_h and not bad:
-                bad = f"{errs_h[0]['func']}: harness cannot even be loaded: {errs_h[0]['message'][-200:]}"
-            if bad:
-                if name in known_names:
-                    hits.update(e["id"] for e in known if e.get("scope") == scope and name in e.get("names", []))
+            DUMP.setdefault(scope, {})[name] = sorted(failing)
+            if failing:
+                # a finding excuses exactly the conditions recorded for the name: the same name failing somewhere else
+                # (another location, another call variant) is a new capture
+                allowed: set[str] = set()
+                ids = []
+                for e in known:
+                    if e.get("scope") == scope and name in (e.get("fails") or {}):
+                        allowed |= set(e["fails"][name])
+                        ids.append(e["id"])
+                extra = sorted(f for f in failing if f not in allowed and "*" not in allowed)
+                if ids and not extra:
+                    hits.update(ids)
                 else:
-                    wit.append({"what": f"{scope} name {name!r} changes the behaviour of the generated code", "input": {"scope": scope, "name": name}, "observed": bad, "reproduced": True, "replay_func": "vlib.props.C18:replay"})
+                    first = extra[0] if extra else sorted(failing)[0]
+                    wit.append({"what": f"{scope} name {name!r} changes the behaviour of the generated code" + (f" (beyond the recorded {sorted(allowed)})" if ids else ""), "input": {"scope": scope, "name": name}, "observed": {"failing": sorted(failing), "first": failing[first]}, "reproduced": True, "replay_func": "vlib.props.C18:replay"})
             elif nonrep:
                 wit.append({"what": f"{scope} name {name!r}: CrossHair counterexample does not reproduce", "input": {"scope": scope, "name": name}, "observed": nonrep[0]["message"][:200], "reproduced": False})
             else:
@@ -160,7 +184,9 @@ def capture_sweep_single(scope: str, name: str) -> dict:
     saved = me.candidates
     try:
         me.candidates = lambda: {scope: [name], ("model" if scope == "endpoint" else "endpoint"): []}
-        r = capture_sweep(scope, 0, 1, known=[])
+        from ..common import load_known
+
+        r = capture_sweep(scope, 0, 1, known=[e for e in load_known("C18") if e.get("obligation") == "capture"])
     finally:
         me.candidates = saved
     hit = [x for x in r["witnesses"] if x["input"]["name"] == name]
